@@ -95,7 +95,7 @@ func C02(tier string) {
 	r := core.NewRNG(run.SeedV, "c02-"+tier)
 	nRand := 120
 	if tier == "thorough" {
-		nRand = 1500
+		nRand = 600
 	}
 	if tier == "smoke" {
 		chains = chains[:len(guards)]
